@@ -774,6 +774,101 @@ def _write_overrides(chk: Check) -> None:
                       " -> ".join(cfg.describe_path(wit)) if wit else "-"), 2)
 
 
+def _list_write_overrides(chk: Check) -> None:
+    """a subclass of ListWrapper that redefines a storing primitive still performs it through the
+    inherited one on every path that returns normally, and turns away nothing the built-in list
+    accepts: in particular a slice whose step is written out as 1 is a plain slice (it may grow or
+    shrink the list), only steps other than 1 need replacements of equal length"""
+    repo = chk.repo
+    root = repo.cls("ListWrapper")
+    for c in repo.subclasses(root):
+        for meth in ("__setitem__", "__delitem__", "insert"):
+            f = c.methods.get(meth)
+            if f is None:
+                continue
+            chk.saw(f)
+            ps = f.param_names()[1:]
+            cfg = CFG(f.node)
+
+            def is_super(n: ast.AST) -> bool:
+                for x in ast.walk(n):
+                    if isinstance(x, ast.Call) and isinstance(x.func, ast.Attribute) and x.func.attr == meth and \
+                            isinstance(x.func.value, ast.Call) and attr_path(x.func.value.func) == ("super",) and \
+                            [attr_path(a_) for a_ in x.args] == [(p_,) for p_ in ps] and not x.keywords:
+                        return True
+                return False
+            stores = cfg.nodes_where(is_super)
+            wit = cfg.path_avoiding(cfg.entry, cfg.exit, stores)
+            chk.ob("R16.3", "%s.%s:stores-on-every-path" % (c.qualname, meth), wit is None, f.loc(),
+                   "a path through %s.%s returns without performing the operation through ListWrapper.%s: %s"
+                   % (c.qualname, meth, meth, " -> ".join(cfg.describe_path(wit)) if wit else "-"), 2)
+            idx = ps[0] if ps else None
+            # the raises the override adds, with the tests around them
+            parents: Dict[int, ast.AST] = {}
+            for n in ast.walk(f.node):
+                for ch in ast.iter_child_nodes(n):
+                    parents[id(ch)] = n
+            for r in [n for n in walk_no_nested(f.node) if isinstance(n, ast.Raise)]:
+                tests: List[Tuple[ast.AST, bool]] = []
+                cur: ast.AST = r
+                while id(cur) in parents:
+                    par = parents[id(cur)]
+                    if isinstance(par, ast.If):
+                        tests.append((par.test, any(cur is b_ for b_ in par.body)))
+                    cur = par
+
+                def ev(t: ast.AST, s_: object) -> Optional[bool]:
+                    """the test when the index is a slice whose step is s_ (None: not decided by that)"""
+                    if isinstance(t, ast.UnaryOp) and isinstance(t.op, ast.Not):
+                        v_ = ev(t.operand, s_)
+                        return None if v_ is None else not v_
+                    if isinstance(t, ast.BoolOp):
+                        vs = [ev(x, s_) for x in t.values]
+                        if isinstance(t.op, ast.And):
+                            return False if any(v_ is False for v_ in vs) else True if all(v_ is True for v_ in vs) else None
+                        return True if any(v_ is True for v_ in vs) else False if all(v_ is False for v_ in vs) else None
+                    if isinstance(t, ast.Call) and attr_path(t.func) == ("isinstance",) and len(t.args) == 2 \
+                            and attr_path(t.args[0]) == (idx,) and (dotted(t.args[1]) or ("",))[-1] == "slice":
+                        return True
+                    if isinstance(t, ast.Compare) and len(t.ops) == 1 and attr_path(t.left) == (idx, "step"):
+                        rhs = t.comparators[0]
+                        vals: Optional[List[object]] = None
+                        if isinstance(rhs, ast.Constant):
+                            vals = [rhs.value]
+                        elif isinstance(rhs, (ast.Tuple, ast.List, ast.Set)) and all(isinstance(e_, ast.Constant) for e_ in rhs.elts):
+                            vals = [e_.value for e_ in rhs.elts]
+                        if vals is None:
+                            return None
+                        op = t.ops[0]
+                        if isinstance(op, (ast.Is, ast.Eq)):
+                            return s_ == vals[0] and type(s_) is type(vals[0])
+                        if isinstance(op, (ast.IsNot, ast.NotEq)):
+                            return not (s_ == vals[0] and type(s_) is type(vals[0]))
+                        if isinstance(op, ast.In):
+                            return any(s_ == v_ and type(s_) is type(v_) for v_ in vals)
+                        if isinstance(op, ast.NotIn):
+                            return not any(s_ == v_ and type(s_) is type(v_) for v_ in vals)
+                    return None
+                mentions_step = any(attr_path(x) == (idx, "step") for t_, _v in tests for x in ast.walk(t_))
+                verdict: Optional[bool] = None         # True: cannot fire for a plain slice
+                if mentions_step:
+                    fires = []
+                    for s_ in (None, 1):
+                        vs = [ev(t_, s_) if pol else (None if ev(t_, s_) is None else not ev(t_, s_)) for t_, pol in tests]
+                        fires.append(False if any(v_ is False for v_ in vs) else
+                                     True if any(v_ is True and any(attr_path(x) == (idx, "step") for x in ast.walk(t_))
+                                                 for v_, (t_, _p) in zip(vs, tests)) else None)
+                    if all(x is False for x in fires):
+                        verdict = True
+                    elif any(x is True for x in fires):
+                        verdict = False
+                chk.ob("R16.4", "%s.%s:rejects-only-what-list-rejects" % (c.qualname, meth), verdict is True, f.loc(r),
+                       "%s.%s raises on its own%s: the built-in list treats a slice whose step is None or 1 as a "
+                       "plain slice, which takes a replacement of any length"
+                       % (c.qualname, meth, " for a slice with step 1 (or no step)" if verdict is False else
+                          " under a condition that is not understood"), 2, undecided=verdict is None)
+
+
 def _delegation_table(chk: Check) -> None:
     """the abstract-method primitives of the three wrappers are the same-named operation of
     the wrapped store, nothing more"""
@@ -840,6 +935,7 @@ def _delegation_table(chk: Check) -> None:
                    % (sub_.qualname, meth, show(got2) if got2[0] != "?" else got2[1]), 2)
     _observer_overrides(chk)
     _write_overrides(chk)
+    _list_write_overrides(chk)
     # operators are the mixins' business: a collection class that defines one itself must be in the
     # table of operators whose bodies are checked (R16.8)
     ops = {"__ior__", "__iand__", "__ixor__", "__isub__", "__iadd__", "__imul__", "__and__", "__xor__", "__sub__",
@@ -858,6 +954,18 @@ def _delegation_table(chk: Check) -> None:
                    "mixins (snapshot of the operand, de-duplication, one add/discard per element), which "
                    "are built on the checked primitives; a hand-written one is not covered by them"
                    % (c_.qualname, nm_), 1)
+        # ... the same for an operator bound by a class-level assignment (__le__ = issubset)
+        for st_ in c_.node.body:
+            tgs_ = st_.targets if isinstance(st_, ast.Assign) else [st_.target] if isinstance(st_, ast.AnnAssign) \
+                and st_.value is not None else []
+            for tg_ in tgs_:
+                if isinstance(tg_, ast.Name) and tg_.id in ops:
+                    chk.ob("R16.8", "%s.%s:operator-from-mixin" % (c_.qualname, tg_.id), False,
+                           c_.loc(st_),
+                           "%s binds %s to another callable: the set/sequence/mapping operators come from the "
+                           "collections.abc mixins (NotImplemented / TypeError for an operand that is not a "
+                           "set, snapshot of the operand), which are built on the checked primitives"
+                           % (c_.qualname, tg_.id), 1)
     # __setitem__/__delitem__ of DictWrapper
     dw = repo.cls("DictWrapper")
     for meth, kind in (("__setitem__", ast.Assign), ("__delitem__", ast.Delete)):
